@@ -184,6 +184,16 @@ pub fn gen_expr(rng: &mut Rng, depth: usize, t: &ValueType, chaos: u64) -> Expre
                 let n = rng.below(3) + 1;
                 let mut values: Vec<ExpressionTree> = (0..n).map(|_| gen_expr(rng, d.min(1), &ot, chaos)).collect();
                 if rng.chance(1, 4) { values.push(lit(Value::Null)); }
+                if rng.chance(1, 3) {
+                    // a list of LITERALS of mixed types whose head has the operand's type (INT and REAL members that are
+                    // numerically equal to likely operands; sometimes a member of a type `=` cannot compare)
+                    let small = |rng: &mut Rng| rng.range(-2, 3);
+                    let head = match &ot { ValueType::Int => lit(Value::Int(small(rng))), ValueType::Float => lit(Value::Float(Float(small(rng) as f64 + if rng.chance(1, 2) { 0.5 } else { 0.0 }))), _ => literal_of(rng, &ot) };
+                    values = vec![head];
+                    for _ in 0..1 + rng.below(3) {
+                        values.push(match rng.below(5) { 0 | 1 => lit(Value::Int(small(rng))), 2 | 3 => lit(Value::Float(Float(small(rng) as f64))), _ => lit(Value::String("many".to_owned())) });
+                    }
+                }
                 ExpressionTree::In { is_not: rng.chance(1, 2), operand: bx(gen_expr(rng, d, &ot, chaos)), values }
             }
             9 => {
@@ -474,7 +484,7 @@ pub fn check_expr(run: &mut Run, env: &[(String, Value)], e: &ExpressionTree, ex
     let ev = |x: &ExpressionTree| eval_real(env, x);
     let (expect, law) = spec_root(e, &ev);
     match expect {
-        Expect::Unspecified => {}
+        Expect::Unspecified => { run.count(&format!("oracle-abstains:{}", root)); }
         Expect::Value(want) => match &got {
             Ev::Ok(v) if bits_equal(v, &want) => {}
             other => {
